@@ -94,6 +94,76 @@ def bindType (reg : Registry) (root : Mod) (scope : List Stmt) (name : String) :
       | some ext => pick (topLevel (withSubmodules reg [ext]) pn.2)
     | _ => .ambiguous
 
+/-! ### The same, as relations (what the theorems are stated against)
+
+`bindType` above is the executable rendering (it answers `ambiguous` where the relation relates a
+reference to more than one typedef). -/
+
+/-- One include statement of `a` names `b`. -/
+def Includes (reg : Registry) (a b : Mod) : Prop := b ∈ includesOf reg a
+
+/-- `b` is `a` or a submodule `a` includes, directly or through other submodules. -/
+inductive IncludesStar (reg : Registry) : Mod → Mod → Prop
+  | refl (a : Mod) : IncludesStar reg a a
+  | head {a b c : Mod} : Includes reg a b → IncludesStar reg b c → IncludesStar reg a c
+
+/-- `m` is part of the module a reference standing in `root` belongs to: `root` itself and its
+submodules, the module `root` belongs to and that module's submodules. -/
+def InUnit (reg : Registry) (root m : Mod) : Prop :=
+  IncludesStar reg root m ∨
+  ∃ b o, root.belongsTo? = some b ∧ reg.getModule b = some o ∧ IncludesStar reg o m
+
+/-- Is the name unprefixed or prefixed with the referencing module's own prefix? -/
+def isLocalRef (root : Mod) (name : String) : Bool :=
+  (splitPrefix name).1 == "" || (splitPrefix name).1 == root.getPrefix
+
+/-- The name without its prefix. -/
+def baseName (name : String) : String := (splitPrefix name).2
+
+/-- `Binds reg root scope name m td sc`: the type name `name`, written in module `root` inside the
+statements `scope` (nearest first), denotes the typedef statement `td`, which stands in
+(sub)module `m` enclosed by `sc`. -/
+inductive Binds (reg : Registry) (root : Mod) (scope : List Stmt) (name : String) : Mod → Stmt → List Stmt → Prop
+  /-- the nearest enclosing scope that declares the name -/
+  | lexical (pre : List Stmt) (n : Stmt) (up : List Stmt) (td : Stmt) :
+      builtinNames.contains name = false → isLocalRef root name = true →
+      scope = pre ++ n :: up → (∀ x ∈ pre, declared x (baseName name) = []) →
+      td ∈ declared n (baseName name) → Binds reg root scope name root td (n :: up)
+  /-- else the top level of its module and that module's submodules -/
+  | moduleLevel (m : Mod) (td : Stmt) :
+      builtinNames.contains name = false → isLocalRef root name = true →
+      (∀ x ∈ scope, declared x (baseName name) = []) →
+      InUnit reg root m → td ∈ declared m.stmt (baseName name) → Binds reg root scope name m td [m.stmt]
+  /-- a foreign prefix: the top level of exactly the module imported under that prefix, its submodules included -/
+  | foreign (i : Stmt) (ext m : Mod) (td : Stmt) :
+      builtinNames.contains name = false → isLocalRef root name = false →
+      i ∈ root.imports → i.argOf? "prefix" = some (splitPrefix name).1 → reg.findModule false i = some ext →
+      IncludesStar reg ext m → td ∈ declared m.stmt (baseName name) → Binds reg root scope name m td [m.stmt]
+
+/-- `Resolvable reg root scope t`: the type statement `t` has a finite derivation: it names a
+built-in type, or a typedef (as `Binds` says) whose own type statement is resolvable; and so are
+all its member types.  A reference to an unknown name or prefix has no derivation, nor has a
+cyclic definition (derivations are finite trees). -/
+inductive Resolvable (reg : Registry) : Mod → List Stmt → Stmt → Prop
+  | builtin {root : Mod} {scope : List Stmt} {t : Stmt} :
+      builtinNames.contains t.arg = true →
+      (∀ ut ∈ t.all "type", Resolvable reg root (t :: scope) ut) → Resolvable reg root scope t
+  | derived {root : Mod} {scope : List Stmt} {t : Stmt} (m : Mod) (td : Stmt) (sc : List Stmt) (tt : Stmt) :
+      Binds reg root scope t.arg m td sc → td.one? "type" = some tt →
+      Resolvable reg m (td :: sc) tt →
+      (∀ ut ∈ t.all "type", Resolvable reg root (t :: scope) ut) → Resolvable reg root scope t
+
+/-- `DerivesFrom reg root scope t kind chain`: the derivation chain of `t`: the statements from `t`
+outward to the type statement naming the built-in `kind`, nearest first (a `type` statement, the
+`typedef` it names, that typedef's `type` statement, …). -/
+inductive DerivesFrom (reg : Registry) : Mod → List Stmt → Stmt → String → List Stmt → Prop
+  | builtin {root : Mod} {scope : List Stmt} {t : Stmt} :
+      builtinNames.contains t.arg = true → DerivesFrom reg root scope t t.arg [t]
+  | derived {root : Mod} {scope : List Stmt} {t : Stmt} (m : Mod) (td : Stmt) (sc : List Stmt) (tt : Stmt)
+      (kind : String) (chain : List Stmt) :
+      Binds reg root scope t.arg m td sc → td.one? "type" = some tt →
+      DerivesFrom reg m (td :: sc) tt kind chain → DerivesFrom reg root scope t kind (t :: td :: chain)
+
 /-! ## Inheritance -/
 
 /-- The attributes of a resolved type the property speaks about. `patterns` and `members` are sets
